@@ -2,7 +2,9 @@
    AttributeData.range / qname_len / eq_len) are write-only for the parser.  A builder that strips them after
    every token produces exactly the stripped document and the same errors, for the tokenizer run and for the
    whole parse (parse_np_correct).  Determinism itself holds of the model by construction (it is a function)
-   and is decided for the code by the feature-set / repetition correspondence.
+   and is decided for the code by the feature-set / repetition correspondence.  The premise -- which fields and
+   statements the features gate -- is regenerated from every cfg(feature = ..) attribute of the source (GeneratedFeatures.v)
+   and compared with what strip_* erases (Proofs/FeatureGates.v).
    Statements are pinned here (copied verbatim from the proof files by tools/pin_props.py);
    each is re-proved by `exact` and followed by Print Assumptions. *)
 From Coq Require Import Ascii String.
@@ -11,6 +13,8 @@ Import ListNotations.
 From RX Require Import Generated.
 From RX.Model Require Import Base CharClass Stream Tokenizer Doc Builder Parse Api.
 From RX.Proofs Require Import OptionsParam PositionsNonInterf.
+From RX Require GeneratedFeatures.
+From RX.Proofs Require FeatureGates.
 Open Scope N_scope.
 
 (* ---- Proofs/PositionsNonInterf.v ---- *)
@@ -55,3 +59,34 @@ Theorem C19_parse_np_correct :
   end.
 Proof. exact parse_np_correct. Qed.
 Print Assumptions C19_parse_np_correct.
+
+(* ---- Proofs/FeatureGates.v ---- *)
+Module G1.
+Import RX.GeneratedFeatures. Import RX.Proofs.FeatureGates. Local Open Scope string_scope.
+Theorem C19_gated_fields_are_the_stripped_ones :
+  positions_gated_fields = stripped_fields.
+Proof. exact gated_fields_are_the_stripped_ones. Qed.
+Print Assumptions C19_gated_fields_are_the_stripped_ones.
+
+Theorem C19_strip_node_only_range :
+  forall nd r, strip_node (Build_node_data (nd_parent nd) (nd_prev_sibling nd) (nd_next_subtree nd)
+                                                      (nd_last_child nd) (nd_kind nd) r) = strip_node nd.
+Proof. exact strip_node_only_range. Qed.
+Print Assumptions C19_strip_node_only_range.
+
+Theorem C19_strip_attr_only_positions :
+  forall a r q e, strip_attr (Build_attr_data (ad_ns_idx a) (ad_local a) (ad_value a) r q e) = strip_attr a.
+Proof. exact strip_attr_only_positions. Qed.
+Print Assumptions C19_strip_attr_only_positions.
+
+Theorem C19_gated_statements :
+  positions_gated_field_writes = 1%nat /\ positions_ungated_drops = 2%nat.
+Proof. exact gated_statements. Qed.
+Print Assumptions C19_gated_statements.
+
+Theorem C19_std_gates :
+  std_gated_items = ["extern crate std;"; "impl std::error::Error for Error"].
+Proof. exact std_gates. Qed.
+Print Assumptions C19_std_gates.
+
+End G1.
